@@ -289,7 +289,14 @@ func (h *hist) opUnmarshal(t *rapid.T) {
 		} else {
 			err = csproto.Unmarshal(b, h.m)
 		}
-		h.w.Step("Unmarshal(%d saved bytes) via %s err=%v", len(b), []string{"generated", "csproto"}[via], err)
+		h.w.Step("Unmarshal(%d saved bytes) via %s failed=%v", len(b), []string{"generated", "csproto"}[via], err != nil)
+		if err != nil {
+			// the saved bytes list map entries in the order one earlier Marshal happened to iterate them, so where a
+			// failing decode stops - and what it leaves behind - is not a function of this execution's choices:
+			// the object is retired (the error text, which carries a byte offset, is not logged either)
+			h.w.Probe("unmarshal_of_own_marshal_output_failed(object retired)")
+			h.m = h.typ.New()
+		}
 	})
 }
 
